@@ -1,6 +1,7 @@
 package main
 
 import (
+	stringadapter "github.com/casbin/casbin/v2/persist/string-adapter"
 	"fmt"
 	"math/rand"
 	"strings"
@@ -118,7 +119,7 @@ func runC06(c *Ctx) {
 	if c.Thorough() {
 		depth = 4
 	}
-	c.Rule = fmt.Sprintf("all histories of depth <= %d over an alphabet of Add/Remove/Update/RemoveFiltered and batch/Ex variants on three rules, for p (arity 3), p2 (arity 2), g, g with rules that carry a column beyond the definition (filters reach into it) and a definition with a priority field (insertion by priority shifts the index map), through the Enforcer API, observing result, GetPolicy order and the exported PolicyMap after every call and HasPolicy/GetFilteredPolicy probes at the end (exhaustive); plus seeded random histories to length 60 over a universe with separator-like fields (',', '$$', NUL, blanks, empty), over-long rules, update chains; non-trivial = at least one call that changed the store and one that reported false; distinct = whole history", depth)
+	c.Rule = fmt.Sprintf("all histories of depth <= %d over an alphabet of Add/Remove/Update/RemoveFiltered and batch/Ex variants on three rules, for p (arity 3), p2 (arity 2), g, g with rules that carry a column beyond the definition (filters reach into it) and a definition with a priority field (insertion by priority shifts the index map), through the Enforcer API, observing result, GetPolicy order and the exported PolicyMap after every call and HasPolicy/GetFilteredPolicy probes at the end (exhaustive); plus seeded random histories to length 60 over a universe with separator-like fields (',', '$$', NUL, blanks, empty), over-long rules, update chains; after loads whose sorts (subject hierarchy, explicit priority) re-order the rules: index vs list, removal by value of every listed rule (implementation only); every exported SyncedEnforcer method vs the Enforcer method it wraps on twin enforcers (results, rules, store, notifications, decisions; implementation only); non-trivial = at least one call that changed the store and one that reported false; distinct = whole history", depth)
 	targets := []storeTarget{{"p", "p", 3, false, 0}, {"p", "p2", 2, false, 0}, {"g", "g", 2, false, 0}, {"p", "p3", 3, true, 0}, {"g", "g", 2, false, 1}}
 	caseNo := 0
 	for _, t := range targets {
@@ -238,6 +239,13 @@ func runC06(c *Ctx) {
 		t := targets[c.Rng.Intn(len(targets))]
 		c06Random(c, t, 10+c.Rng.Intn(50))
 	}
+	c06LoadedSorts(c)
+	// the synchronised wrapper must do to the store what the plain enforcer does
+	rounds := 3
+	if c.Thorough() {
+		rounds = 30
+	}
+	wrapperTransparency(c, rounds, nil)
 }
 
 var hostileFields = []string{"alice", "bob", "d1", "d2", "read", "a,b", "a", "b", "b,c", "c", "", ",", "$$", "a$$b", "x\x00y", " lead", "trail ", "#h", "\"q\"", "é", "*"}
@@ -401,4 +409,58 @@ func c06Random(c *Ctx, t storeTarget, length int) {
 		c.Nontrivial(strings.Join(lines, ";"))
 	}
 	_ = rand.Int
+}
+
+// c06LoadedSorts: the load-time sorts (subject hierarchy, explicit priority) re-order the listed rules; afterwards
+// every listed rule must be indexed at its slot, be reported present, and a removal by value must remove exactly
+// that rule.  Implementation only.
+func c06LoadedSorts(c *Ctx) {
+	type tc struct {
+		name, model, policy string
+	}
+	subj := strings.Replace(strings.Replace(rbacText, "some(where (p.eft == allow))", "subjectPriority(p_eft) || deny", 1), "p = sub, obj, act", "p = sub, obj, act, eft", 1)
+	prio := strings.Replace(strings.Replace(rbacText, "some(where (p.eft == allow))", "priority(p_eft) || deny", 1), "p = sub, obj, act", "p = priority, sub, obj, act, eft", 1)
+	prio = strings.Replace(prio, "m = g(r.sub, p.sub) && r.obj == p.obj && r.act == p.act", "m = g(r.sub, p.sub) && r.obj == p.obj && r.act == p.act", 1)
+	cases := []tc{
+		{"subject priority", subj, "p, root, data1, read, deny\np, admin, data1, read, deny\np, alice, data1, read, allow\np, bob, data2, write, allow\ng, admin, root\ng, alice, admin\ng, bob, root\n"},
+		{"explicit priority", prio, "p, 30, alice, data1, read, deny\np, 10, admin, data1, read, allow\np, 20, bob, data2, write, allow\np, 10, root, data1, read, deny\ng, alice, admin\n"},
+	}
+	for _, t := range cases {
+		for victim := 0; victim < 4; victim++ {
+			e, err := casbin.NewEnforcer(mustModel(t.model), stringadapter.NewAdapter(t.policy))
+			if err != nil {
+				panic(err)
+			}
+			ast := e.GetModel()["p"]["p"]
+			what := fmt.Sprintf("%s, loaded from %q", t.name, t.policy)
+			for idx, r := range ast.Policy {
+				if j, ok := ast.PolicyMap[strings.Join(r, ",")]; !ok || j != idx {
+					c.Direct("after a load that re-ordered the rules the index map and the rule list disagree", fmt.Sprintf("%s\npolicy=%v index=%v", what, ast.Policy, ast.PolicyMap))
+					break
+				}
+			}
+			live, _ := e.GetPolicy()
+			listed := cloneRules(live) // GetPolicy hands out the live list
+			if victim >= len(listed) {
+				continue
+			}
+			gone := append([]string(nil), listed[victim]...)
+			ok, err := e.RemovePolicy(gone)
+			after, _ := e.GetPolicy()
+			var want [][]string
+			for i, r := range listed {
+				if i != victim {
+					want = append(want, r)
+				}
+			}
+			c.Evals++
+			c.Count("loaded_sort_cases", 1)
+			if !ok || err != nil || fmt.Sprint(after) != fmt.Sprint(want) {
+				c.Direct("after a load that re-ordered the rules, removing a listed rule by value does not remove exactly that rule", fmt.Sprintf("%s\nlisted=%v RemovePolicy(%v) = %v, %v\nlisted afterwards=%v\nexpected          %v", what, listed, gone, ok, err, after, want))
+			}
+			if has, _ := e.HasPolicy(gone); has {
+				c.Direct("a removed rule is still reported present", fmt.Sprintf("%s rule=%v", what, gone))
+			}
+		}
+	}
 }
